@@ -29,7 +29,8 @@ RULE = (
     "{annotated tensor, plain} x defaults {none, conforming tensor, violating tensor, [], {}, None, 3, (1,2)} x binding {function, method, "
     "classmethod, staticmethod} x call style {positional, keyword, defaults omitted}; every case is run on a decorated function and on its "
     "undecorated twin (name, doc, signature, arguments seen by the body, returned object, propagated exception); dataclass option sets "
-    "{frozen, slots, kw_only, eq, defaults} and NamedTuples with/without defaults: fields, ==, repr, isinstance, immutability, pickle, copy. "
+    "{frozen, slots, kw_only, eq, defaults} and NamedTuples with/without defaults: fields, ==, repr, isinstance, immutability, pickle, copy; dataclasses with annotated names "
+    "that hold no value after __init__ (field(init=False), ClassVar, InitVar, a tensor set in __post_init__, with slots / frozen). "
     "non-trivial = distinct case with at least one annotated parameter/field"
 )
 TRUSTED_EXTRA = ["observed-only (not proved): functools.wraps metadata, dataclass/NamedTuple equality, repr, immutability, pickling"]
@@ -332,6 +333,46 @@ def observe_nested(case) -> str:
     return "differs " + ",".join(diffs) if diffs else "same"
 
 
+FIELD_SHAPES = {
+    # annotated names that hold no value when the generated __init__ returns
+    "late": ("", "    x: Annotated[np.ndarray, A]\n    late: int = dataclasses.field(init=False)\n", ()),
+    "late-slots": ("slots=True", "    x: Annotated[np.ndarray, A]\n    late: int = dataclasses.field(init=False)\n", ()),
+    "classvar": ("", "    x: Annotated[np.ndarray, A]\n    count: typing.ClassVar[int]\n", ()),
+    "initvar": ("", "    x: Annotated[np.ndarray, A]\n    scale: dataclasses.InitVar[int] = 2\n    def __post_init__(self, scale):\n        self.s2 = scale * 2\n", ()),
+    "initvar-nodefault": ("", "    x: Annotated[np.ndarray, A]\n    scale: dataclasses.InitVar[int]\n    def __post_init__(self, scale):\n        self.s2 = scale * 2\n", (3,)),
+    "postinit-tensor": ("", "    x: Annotated[np.ndarray, A]\n    y: Annotated[np.ndarray, A] = dataclasses.field(init=False)\n    def __post_init__(self):\n        self.y = self.x\n", ()),
+    "frozen-late": ("frozen=True", "    x: Annotated[np.ndarray, A]\n    late: int = dataclasses.field(init=False)\n", ()),
+}
+
+
+def observe_fields(case) -> str:
+    opts, body, extra = FIELD_SHAPES[case.meta["shape"]]
+    ns = MOD.__dict__
+    src = f"@dltype.dltyped_dataclass()\n@dataclasses.dataclass({opts})\nclass DF_dec:\n{body}@dataclasses.dataclass({opts})\nclass DF_raw:\n{body}"
+    try:
+        exec(compile(src, "<c16f>", "exec"), ns)  # noqa: S102
+    except Exception as e:  # noqa: BLE001
+        return f"differs class-definition({type(e).__name__})"
+    outs = []
+    for C in (ns["DF_dec"], ns["DF_raw"]):
+        try:
+            inst = C(MOD.GOOD, *extra)
+            outs.append("ok" if inst.x is MOD.GOOD else "ok-other-object")
+        except Exception as e:  # noqa: BLE001
+            outs.append(type(e).__name__)
+    diffs = []
+    if outs[0] != outs[1]:
+        diffs.append(f"construction({outs[0]} vs {outs[1]})")
+    try:
+        ns["DF_dec"](MOD.BAD, *extra)
+        diffs.append("violating-construction-accepted")
+    except dltype.DLTypeError:
+        pass
+    except Exception as e:  # noqa: BLE001
+        diffs.append(f"violating-construction({type(e).__name__})")
+    return "differs " + ",".join(diffs) if diffs else "same"
+
+
 def class_cases():
     out = []
     for opts in DC_OPTS:
@@ -352,5 +393,7 @@ def custom(run, tier):
     cs = func_cases(tier, run.rng)
     run.observe(cs, observe_func, expect, "decorated function differs from its undecorated twin")
     run.observe(class_cases(), observe_class, expect, "decorated class differs from its undecorated twin")
+    fields = [Case(f"TWINFIELDS\t{k}", "fields", {"shape": k}) for k in FIELD_SHAPES]
+    run.observe(fields, observe_fields, expect, "a decorated dataclass with an annotated name that holds no value after __init__ differs from its twin")
     nested = [Case(f"TWINNESTED\t{k}", "nested", {"kind": k}) for k in ("nt", "dc")]
     run.observe(nested, observe_nested, expect, "a decorated class defined inside another class misbehaves")
